@@ -134,11 +134,25 @@ def exp_task(pkg, name, deps=(), par=False, kind="run_experiment", args=None, op
 
 def _cli_child(job):
     root, argv, cwd, clock, crash_at, count, env = job
+    # if the command does not return, leave the stacks of all threads behind for the diagnosis
+    import faulthandler
+    try:
+        _fh = open(os.path.join(root, "..", "stuck.%d.txt" % os.getpid()), "w")
+        faulthandler.dump_traceback_later(90, repeat=False, file=_fh)
+    except Exception:
+        _fh = None
     prof = CrashProfile(crash_at) if (crash_at is not None or count) else None
     r = CLI.run_cli(root, argv, cwd=cwd, clock=clock, profile=prof, env=env)
     if prof is not None:
         r["effects"] = prof.n
         r["effect_log"] = prof.log
+    try:
+        faulthandler.cancel_dump_traceback_later()
+        if _fh is not None:
+            _fh.close()
+            os.unlink(_fh.name)
+    except Exception:
+        pass
     return r
 
 
@@ -148,6 +162,15 @@ def run_command(root, argv, cwd="", clock=None, crash_at=None, count=False, env=
     res = C.fork_map(_cli_child, [(root, argv, cwd, clock, crash_at, count, env)], nproc=1, timeout=timeout)[0]
     if isinstance(res, dict) and res.get("_error") == "child died without result":
         res = {"status": 137, "crashed": True, "stdout": "", "stderr": "", "stderr_kind": "none"}
+    if isinstance(res, dict) and res.get("_timeout"):
+        import glob
+        dumps = []
+        for f in glob.glob(os.path.join(root, "..", "stuck.*.txt")):
+            try:
+                dumps.append(open(f).read()[-3000:])
+            except OSError:
+                pass
+        res["_error"] = "command %s did not return within %ss; thread stacks: %s" % (argv, timeout, " || ".join(dumps) or "(none)")
     # orphans (children of a crashed cond) may still be writing: wait for the agents to finish
     deadline = time.time() + 5
     ctl = env["CV_CTL"]
